@@ -10,10 +10,16 @@
   (nativetypes.py:50-86 + compiler.py `visit_Output`: adjacent template data of one Output node are folded
   into one string, every other child is yielded as the value itself, no `str()`).
 
-  Statements understood: `{{ name }}`, `{{ macro(name) }}`, `{% if name %}…{% else %}…{% endif %}`,
+  A `{{ … }}` whose expression is a compile-time constant (compiler.py `visit_Output`: `_output_child_to_const`
+  succeeds) joins the group of template data / constants around it in the same Output node: ONE string piece per
+  maximal run of data and constants — also when that string is empty; a group is never dropped.  The constant
+  expressions are not evaluated here: the request names them (token texts joined) with their documented text.
+
+  Statements understood: `{{ name }}`, `{{ constant }}`, `{{ macro(name) }}`, `{% if name %}…{% else %}…{% endif %}`,
   `{% set name = name|literal %}`, `{% macro name(param) %}…{% endmacro %}`; anything else is outside the
-  model (`none`).  A macro call is modelled only where `native_concat` of the macro body's pieces is a
-  single non-string value (the documented identity case); otherwise `none`.
+  model (`none`).  A macro call is modelled where `native_concat` of the macro body's pieces is a single
+  non-string value (the documented identity case), or a text that is NOT a Python literal — the text is recorded in
+  `assumed` and the harness confirms the assumption with Python's own `literal_eval` (the parameter); otherwise `none`.
 -/
 import JinjaV.Model.Lex
 import JinjaV.Model.Native
@@ -48,6 +54,8 @@ def wrap (toks : List Tok) : List PTok := toks.filterMap wrapTok
 structure St where
   vars : List (Str × Option Val)            -- `none`: bound to something the model does not follow
   conds : List (Str × Bool)                 -- render data used as `if` tests
+  consts : List (Str × String)              -- constant expressions (token texts joined) with their documented text
+  assumed : List String                     -- macro results taken to be text: must not parse as Python literals
   macros : List (Str × Str × List PTok)     -- name, parameter, body tokens
   stack : List (Bool × Bool)                -- per open `if`: (live outside, value of the test)
   live : Bool
@@ -65,6 +73,9 @@ def pushData (st : St) (s : Str) : St :=
   match st.lastData, st.out with
   | true, .str t :: r => { st with out := .str (t ++ String.ofList s) :: r }
   | _, _ => { st with out := .str (String.ofList s) :: st.out, lastData := true }
+
+/-- a constant expression child: part of the group of data / constants around it, never dropped, empty or not -/
+def pushConst (st : St) (s : String) : St := pushData st s.toList
 
 /-- an expression child: yielded as it is -/
 def pushVal (st : St) (v : Val) : St :=
@@ -101,7 +112,25 @@ def splitEndMacro : List PTok → Option (List PTok × List PTok)
       | none => none
 
 def macroState (st : St) (p : Str) (v : Val) : St :=
-  { vars := [(p, some v)], conds := st.conds, macros := [], stack := [], live := true, out := [], lastData := false }
+  { vars := [(p, some v)], conds := st.conds, consts := st.consts, assumed := st.assumed, macros := [], stack := [],
+    live := true, out := [], lastData := false }
+
+def tokText : PTok → Str
+  | .data s => s | .name s => s | .op s => s | .lit s => s
+  | .varBegin | .varEnd | .blockBegin | .blockEnd => []
+
+/-- the tokens of an expression up to its `variable_end`: (token texts joined, rest after the end) -/
+def splitVarEnd : List PTok → Option (Str × List PTok)
+  | [] => none
+  | .varEnd :: r => some ([], r)
+  | .varBegin :: _ => none
+  | .blockBegin :: _ => none
+  | .blockEnd :: _ => none
+  | .data _ :: _ => none
+  | t :: r =>
+    match splitVarEnd r with
+    | some (k, r2) => some (tokText t ++ k, r2)
+    | none => none
 
 /-- the pieces, in order.  `guard` = `Parser.subparse` skips a data token whose value is empty. -/
 def interp (guard : Bool) : Nat → List PTok → St → Option St
@@ -120,12 +149,22 @@ def interp (guard : Bool) : Nat → List PTok → St → Option St
     | some (p, body), some (some va) =>
       match interp guard n body (macroState st p va) with
       | some st2 =>
-        -- the macro returns `concat(buffer)` (a list): modelled where that is the identity case
+        -- the macro returns `concat(buffer)` (a list): the identity case, or a text assumed not to be a literal
         match nativeConcat (fun _ => (none : Option Unit)) false st2.out.reverse with
-        | .value v => interp guard n r (pushVal st v)
+        | .value v => interp guard n r (pushVal { st with assumed := st2.assumed } v)
+        | .text raw => interp guard n r (pushVal { st with assumed := raw :: st2.assumed } (.str raw))
         | _ => none
       | none => none
     | _, _ => none
+  | n + 1, .varBegin :: t :: r, st =>
+    -- any other expression: modelled when it is one of the named compile-time constants
+    match splitVarEnd (t :: r) with
+    | some (key, r2) =>
+      if !st.live then interp guard n r2 st else
+      match lookup key st.consts with
+      | some text => interp guard n r2 (pushConst st text)
+      | none => none
+    | none => none
   | n + 1, .blockBegin :: .name k :: .name c :: .blockEnd :: r, st =>
     if k = kw "if" then
       match cond st c with
@@ -164,8 +203,14 @@ def interp (guard : Bool) : Nat → List PTok → St → Option St
     else none
   | _ + 1, _, _ => none
 
-def initState (vars : List (Str × Option Val)) (conds : List (Str × Bool)) : St :=
-  { vars := vars, conds := conds, macros := [], stack := [], live := true, out := [], lastData := false }
+def initState (vars : List (Str × Option Val)) (conds : List (Str × Bool)) (consts : List (Str × String) := []) : St :=
+  { vars := vars, conds := conds, consts := consts, assumed := [], macros := [], stack := [], live := true, out := [],
+    lastData := false }
+
+/-- pieces and the texts assumed not to be literals -/
+def piecesWith (guard : Bool) (toks : List PTok) (vars : List (Str × Option Val)) (conds : List (Str × Bool))
+    (consts : List (Str × String)) : Option (List Val × List String) :=
+  (interp guard (2 * toks.length + 4) toks (initState vars conds consts)).map fun st => (st.out.reverse, st.assumed)
 
 /-- the pieces the root render function yields for a token list -/
 def pieces (guard : Bool) (toks : List PTok) (vars : List (Str × Option Val)) (conds : List (Str × Bool)) :
